@@ -69,7 +69,7 @@ __CPROVER_ensures(g_pm_frees == __CPROVER_old(g_pm_frees) + 1)
 	__CPROVER_requires(g_inlen < (1UL << 40) && P_OFF(g_in) == 0 && __CPROVER_r_ok(g_in, g_inlen * sizeof(URI_CHAR))) \
 	__CPROVER_requires(__CPROVER_same_object(first, g_in) && __CPROVER_same_object(afterLast, g_in) && P_ALIGNED(first) && P_ALIGNED(afterLast) \
 		&& P_OFF(first) <= P_OFF(afterLast) && P_OFF(afterLast) <= g_inlen * sizeof(URI_CHAR)) \
-	__CPROVER_requires(P_INV(state, first))
+	__CPROVER_requires(P_INV(state, first)) P_MARKS_REQUIRES
 #define P_ENSURES_COMMON \
 	__CPROVER_ensures(__CPROVER_return_value == NULL || P_POS(first, __CPROVER_return_value, afterLast)) \
 	__CPROVER_ensures(__CPROVER_return_value == NULL ==> P_FAIL(state, first, afterLast)) \
@@ -97,20 +97,339 @@ const URI_CHAR *g_tr_ret[TRMAX];
 # define P_LOG_ENSURES(Id)
 #endif
 
+/* ---- mark actions (C02; obligations Marks.*, -DP_MARKS): which of the fifteen recorded marks a rule function may change,
+ * and - for the functions that record a component boundary themselves - which value it records.
+ *   M_<F>   the marks F or anything it calls may change (FROZEN table: transitive closure of the assignments in the tree
+ *           this machinery was built on; by the RFC a path rule never touches a mark, the authority rules only the
+ *           authority marks, the tail rules only query/fragment).  Every rule function's contract says: on success every
+ *           mark outside M_<F> has its entry value.  Each obligation proves that for its function from the same clause of
+ *           its callees, so a new write to a foreign mark fails the obligation of the function that makes it.
+ *   MI_<F>  further interface clause (holds for callers too), MP_<F> lookahead-specific clause of the enforced function:
+ *           the recorded boundary is exactly `first`, `first + 1` or the position a callee returned. ---- */
+#ifdef P_MARKS
+# define MK_SF 0x0001u
+# define MK_SA 0x0002u
+# define MK_UF 0x0004u
+# define MK_UA 0x0008u
+# define MK_HF 0x0010u
+# define MK_HA 0x0020u
+# define MK_PF 0x0040u
+# define MK_PA 0x0080u
+# define MK_QF 0x0100u
+# define MK_QA 0x0200u
+# define MK_FF 0x0400u
+# define MK_FA 0x0800u
+# define MK_IF 0x1000u
+# define MK_IA 0x2000u
+# define MK_AP 0x4000u
+# define P_KF(M, bit, fld) ((((M) & (bit)) != 0u) || state->uri->fld == __CPROVER_old(state->uri->fld))
+# define P_KEEPS(M) (P_KF(M, MK_SF, scheme.first) && P_KF(M, MK_SA, scheme.afterLast) && P_KF(M, MK_UF, userInfo.first) \
+	&& P_KF(M, MK_UA, userInfo.afterLast) && P_KF(M, MK_HF, hostText.first) && P_KF(M, MK_HA, hostText.afterLast) \
+	&& P_KF(M, MK_PF, portText.first) && P_KF(M, MK_PA, portText.afterLast) && P_KF(M, MK_QF, query.first) \
+	&& P_KF(M, MK_QA, query.afterLast) && P_KF(M, MK_FF, fragment.first) && P_KF(M, MK_FA, fragment.afterLast) \
+	&& P_KF(M, MK_IF, hostData.ipFuture.first) && P_KF(M, MK_IA, hostData.ipFuture.afterLast) && P_KF(M, MK_AP, absolutePath))
+# define P_MARKS_ENSURES(M, MI) __CPROVER_ensures(__CPROVER_return_value != NULL ==> (P_KEEPS(M) && (MI)))
+# define P_MARKS_ENSURES_BOOL(M) __CPROVER_ensures(P_KEEPS(M))
+# define MU(fld) (state->uri->fld)
+# define MOLD(fld) __CPROVER_old(state->uri->fld)
+# define M_ParseAuthority (MK_UF|MK_UA|MK_HF|MK_HA|MK_PF|MK_PA|MK_IF|MK_IA)
+# define M_ParseAuthorityTwo (MK_PF|MK_PA)
+# define M_ParseHexZero (0u)
+# define M_ParseHierPart (MK_UF|MK_UA|MK_HF|MK_HA|MK_PF|MK_PA|MK_IF|MK_IA|MK_AP)
+# define M_ParseIpFutLoop (0u)
+# define M_ParseIpFutStopGo (0u)
+# define M_ParseIpFuture (MK_HF|MK_HA|MK_IF|MK_IA)
+# define M_ParseIpLit2 (MK_HF|MK_HA|MK_IF|MK_IA)
+# define M_ParseIPv6address2 (MK_HA)
+# define M_ParseMustBeSegmentNzNc (MK_SF|MK_QF|MK_QA|MK_FF|MK_FA)
+# define M_ParseOwnHost (MK_HF|MK_HA|MK_PF|MK_PA|MK_IF|MK_IA)
+# define M_OnExitOwnHost2 (MK_HA)
+# define M_ParseOwnHost2 (MK_HA|MK_PF|MK_PA)
+# define M_OnExitOwnHostUserInfo (MK_UF|MK_HF|MK_HA)
+# define M_ParseOwnHostUserInfo (MK_UF|MK_UA|MK_HF|MK_HA|MK_PF|MK_PA|MK_IF|MK_IA)
+# define M_ParseOwnHostUserInfoNz (MK_UF|MK_UA|MK_HF|MK_HA|MK_PF|MK_PA|MK_IF|MK_IA)
+# define M_OnExitOwnPortUserInfo (MK_UF|MK_HF|MK_PA)
+# define M_ParseOwnPortUserInfo (MK_UF|MK_UA|MK_HF|MK_HA|MK_PF|MK_PA|MK_IF|MK_IA)
+# define M_ParseOwnUserInfo (MK_UA|MK_HF|MK_HA|MK_PF|MK_PA|MK_IF|MK_IA)
+# define M_OnExitPartHelperTwo (MK_AP)
+# define M_ParsePartHelperTwo (MK_UF|MK_UA|MK_HF|MK_HA|MK_PF|MK_PA|MK_IF|MK_IA|MK_AP)
+# define M_ParsePathAbsEmpty (0u)
+# define M_ParsePathAbsNoLeadSlash (0u)
+# define M_ParsePathRootless (0u)
+# define M_ParsePchar (0u)
+# define M_ParsePctEncoded (0u)
+# define M_ParsePctSubUnres (0u)
+# define M_ParsePort (0u)
+# define M_ParseQueryFrag (0u)
+# define M_ParseSegment (0u)
+# define M_ParseSegmentNz (0u)
+# define M_OnExitSegmentNzNcOrScheme2 (MK_SF)
+# define M_ParseSegmentNzNcOrScheme2 (MK_SF|MK_SA|MK_UF|MK_UA|MK_HF|MK_HA|MK_PF|MK_PA|MK_QF|MK_QA|MK_FF|MK_FA|MK_IF|MK_IA|MK_AP)
+# define M_ParseUriReference (MK_SF|MK_SA|MK_UF|MK_UA|MK_HF|MK_HA|MK_PF|MK_PA|MK_QF|MK_QA|MK_FF|MK_FA|MK_IF|MK_IA|MK_AP)
+# define M_ParseUriTail (MK_QF|MK_QA|MK_FF|MK_FA)
+# define M_ParseUriTailTwo (MK_FF|MK_FA)
+# define M_ParseZeroMoreSlashSegs (0u)
+/* interface clauses */
+# define MI_DEFAULT 1
+/* the scheme-or-segment rules keep the provisional scheme start or withdraw it ("not a scheme"), nothing else */
+# define MI_ParseSegmentNzNcOrScheme2 (MU(scheme.first) == MOLD(scheme.first) || MU(scheme.first) == NULL)
+# define MI_ParseMustBeSegmentNzNc (MU(scheme.first) == NULL)
+/* likewise the provisional user-info start: kept, or withdrawn when the text turns out to be the host */
+# define MI_ParseOwnHostUserInfo (MU(userInfo.first) == MOLD(userInfo.first) || MU(userInfo.first) == NULL)
+# define MI_ParseOwnHostUserInfoNz (MU(userInfo.first) == MOLD(userInfo.first) || MU(userInfo.first) == NULL)
+# define MI_ParseOwnPortUserInfo (MU(userInfo.first) == MOLD(userInfo.first) || MU(userInfo.first) == NULL)
+/* the host rule keeps the recorded host start or, for a bracketed literal, records the position behind '[' */
+# define MI_ParseOwnHost (MU(hostText.first) == MOLD(hostText.first) || (MK_LA('[') && MK_AT1(MU(hostText.first))))
+/* the query/fragment rules record the range they matched */
+# define MI_ParseUriTailTwo (MU(fragment.first) == MOLD(fragment.first) \
+	? MU(fragment.afterLast) == MOLD(fragment.afterLast) : (MK_AT1(MU(fragment.first)) && MU(fragment.afterLast) == __CPROVER_return_value))
+# define MI_ParseAuthorityTwo (MU(portText.first) == MOLD(portText.first) \
+	? MU(portText.afterLast) == MOLD(portText.afterLast) : (MK_AT1(MU(portText.first)) && MU(portText.afterLast) == __CPROVER_return_value))
+/* lookahead-specific clauses (enforced function only; D_CH/D_F0/D_END as in the dispatch formula) */
+# define MK_LA(c) (D_F0 < D_END && D_CH(D_F0) == _UT(c))
+# define MK_ALPHA_LA (D_F0 < D_END && ((D_CH(D_F0) >= _UT('a') && D_CH(D_F0) <= _UT('z')) || (D_CH(D_F0) >= _UT('A') && D_CH(D_F0) <= _UT('Z'))))
+# define MK_SAME(fld) (MU(fld) == MOLD(fld))
+/* p is the position one character behind `first` (offsets, not `first + 1`: no pointer is formed behind the object) */
+# define MK_AT1(p) (__CPROVER_same_object((p), first) && P_OFF(p) == P_OFF(first) + sizeof(URI_CHAR))
+# define MP_ParseUriTailTwo (MK_LA('#') ? (MK_AT1(MU(fragment.first)) && MU(fragment.afterLast) == __CPROVER_return_value) \
+	: (MK_SAME(fragment.first) && MK_SAME(fragment.afterLast)))
+# define MP_ParseUriTail (MK_LA('#') ? (MK_AT1(MU(fragment.first)) && MU(fragment.afterLast) == __CPROVER_return_value && MK_SAME(query.first) && MK_SAME(query.afterLast)) \
+	: MK_LA('?') ? (MK_AT1(MU(query.first)) && MU(query.afterLast) == g_tr_ret[0]) \
+	: (MK_SAME(fragment.first) && MK_SAME(fragment.afterLast) && MK_SAME(query.first) && MK_SAME(query.afterLast)))
+# define MP_ParseAuthorityTwo (MK_LA(':') ? (MK_AT1(MU(portText.first)) && MU(portText.afterLast) == __CPROVER_return_value) \
+	: (MK_SAME(portText.first) && MK_SAME(portText.afterLast)))
+# define MP_ParseSegmentNzNcOrScheme2 (!MK_LA(':') || (MU(scheme.afterLast) == first && MK_SAME(scheme.first)))
+# define MP_ParseUriReference (!MK_ALPHA_LA || MU(scheme.first) == first || MU(scheme.first) == NULL)
+# define MP_ParseIpFuture (MU(hostText.first) == first && MU(hostData.ipFuture.first) == first \
+	&& MU(hostText.afterLast) == __CPROVER_return_value && MU(hostData.ipFuture.afterLast) == __CPROVER_return_value)
+# define MP_ParseAuthority ((D_F0 >= D_END) ? (MU(hostText.first) == URI_FUNC(SafeToPointTo) && MU(hostText.afterLast) == URI_FUNC(SafeToPointTo) && MK_SAME(userInfo.first)) \
+	: MK_LA('[') ? (MK_AT1(MU(hostText.first)) && MK_SAME(userInfo.first)) \
+	: (MK_SAME(userInfo.first) || MU(userInfo.first) == first || MU(userInfo.first) == NULL))
+# define MP_ParseOwnHost ((D_F0 >= D_END) ? (MU(hostText.afterLast) == afterLast && MK_SAME(hostText.first)) : (!MK_LA('[') || MK_AT1(MU(hostText.first))))
+/* behind '@': the host starts one character on, or two when a bracketed literal follows ("@[") */
+# define MK_AT1OR2(p) (__CPROVER_same_object((p), first) && (P_OFF(p) == P_OFF(first) + sizeof(URI_CHAR) \
+	|| (P_OFF(p) == P_OFF(first) + 2 * sizeof(URI_CHAR) && D_F0 + 1 < D_END && D_CH(D_F0 + 1) == _UT('['))))
+# define MK_AFTER_AT (MU(userInfo.afterLast) == first && MK_SAME(userInfo.first) && MK_AT1OR2(MU(hostText.first)))
+# define MP_ParseOwnHostUserInfoNz (!MK_LA('@') || MK_AFTER_AT)
+# define MP_ParseOwnPortUserInfo (!MK_LA('@') || MK_AFTER_AT)
+# define MP_ParseOwnUserInfo (!MK_LA('@') || MK_AFTER_AT)
+# ifndef MI_ParseAuthority
+#  define MI_ParseAuthority MI_DEFAULT
+# endif
+# ifndef MP_ParseAuthority
+#  define MP_ParseAuthority 1
+# endif
+# ifndef MI_ParseAuthorityTwo
+#  define MI_ParseAuthorityTwo MI_DEFAULT
+# endif
+# ifndef MP_ParseAuthorityTwo
+#  define MP_ParseAuthorityTwo 1
+# endif
+# ifndef MI_ParseHexZero
+#  define MI_ParseHexZero MI_DEFAULT
+# endif
+# ifndef MP_ParseHexZero
+#  define MP_ParseHexZero 1
+# endif
+# ifndef MI_ParseHierPart
+#  define MI_ParseHierPart MI_DEFAULT
+# endif
+# ifndef MP_ParseHierPart
+#  define MP_ParseHierPart 1
+# endif
+# ifndef MI_ParseIpFutLoop
+#  define MI_ParseIpFutLoop MI_DEFAULT
+# endif
+# ifndef MP_ParseIpFutLoop
+#  define MP_ParseIpFutLoop 1
+# endif
+# ifndef MI_ParseIpFutStopGo
+#  define MI_ParseIpFutStopGo MI_DEFAULT
+# endif
+# ifndef MP_ParseIpFutStopGo
+#  define MP_ParseIpFutStopGo 1
+# endif
+# ifndef MI_ParseIpFuture
+#  define MI_ParseIpFuture MI_DEFAULT
+# endif
+# ifndef MP_ParseIpFuture
+#  define MP_ParseIpFuture 1
+# endif
+# ifndef MI_ParseIpLit2
+#  define MI_ParseIpLit2 MI_DEFAULT
+# endif
+# ifndef MP_ParseIpLit2
+#  define MP_ParseIpLit2 1
+# endif
+# ifndef MI_ParseIPv6address2
+#  define MI_ParseIPv6address2 MI_DEFAULT
+# endif
+# ifndef MP_ParseIPv6address2
+#  define MP_ParseIPv6address2 1
+# endif
+# ifndef MI_ParseMustBeSegmentNzNc
+#  define MI_ParseMustBeSegmentNzNc MI_DEFAULT
+# endif
+# ifndef MP_ParseMustBeSegmentNzNc
+#  define MP_ParseMustBeSegmentNzNc 1
+# endif
+# ifndef MI_ParseOwnHost
+#  define MI_ParseOwnHost MI_DEFAULT
+# endif
+# ifndef MP_ParseOwnHost
+#  define MP_ParseOwnHost 1
+# endif
+# ifndef MI_ParseOwnHost2
+#  define MI_ParseOwnHost2 MI_DEFAULT
+# endif
+# ifndef MP_ParseOwnHost2
+#  define MP_ParseOwnHost2 1
+# endif
+# ifndef MI_ParseOwnHostUserInfo
+#  define MI_ParseOwnHostUserInfo MI_DEFAULT
+# endif
+# ifndef MP_ParseOwnHostUserInfo
+#  define MP_ParseOwnHostUserInfo 1
+# endif
+# ifndef MI_ParseOwnHostUserInfoNz
+#  define MI_ParseOwnHostUserInfoNz MI_DEFAULT
+# endif
+# ifndef MP_ParseOwnHostUserInfoNz
+#  define MP_ParseOwnHostUserInfoNz 1
+# endif
+# ifndef MI_ParseOwnPortUserInfo
+#  define MI_ParseOwnPortUserInfo MI_DEFAULT
+# endif
+# ifndef MP_ParseOwnPortUserInfo
+#  define MP_ParseOwnPortUserInfo 1
+# endif
+# ifndef MI_ParseOwnUserInfo
+#  define MI_ParseOwnUserInfo MI_DEFAULT
+# endif
+# ifndef MP_ParseOwnUserInfo
+#  define MP_ParseOwnUserInfo 1
+# endif
+# ifndef MI_ParsePartHelperTwo
+#  define MI_ParsePartHelperTwo MI_DEFAULT
+# endif
+# ifndef MP_ParsePartHelperTwo
+#  define MP_ParsePartHelperTwo 1
+# endif
+# ifndef MI_ParsePathAbsEmpty
+#  define MI_ParsePathAbsEmpty MI_DEFAULT
+# endif
+# ifndef MP_ParsePathAbsEmpty
+#  define MP_ParsePathAbsEmpty 1
+# endif
+# ifndef MI_ParsePathAbsNoLeadSlash
+#  define MI_ParsePathAbsNoLeadSlash MI_DEFAULT
+# endif
+# ifndef MP_ParsePathAbsNoLeadSlash
+#  define MP_ParsePathAbsNoLeadSlash 1
+# endif
+# ifndef MI_ParsePathRootless
+#  define MI_ParsePathRootless MI_DEFAULT
+# endif
+# ifndef MP_ParsePathRootless
+#  define MP_ParsePathRootless 1
+# endif
+# ifndef MI_ParsePchar
+#  define MI_ParsePchar MI_DEFAULT
+# endif
+# ifndef MP_ParsePchar
+#  define MP_ParsePchar 1
+# endif
+# ifndef MI_ParsePctEncoded
+#  define MI_ParsePctEncoded MI_DEFAULT
+# endif
+# ifndef MP_ParsePctEncoded
+#  define MP_ParsePctEncoded 1
+# endif
+# ifndef MI_ParsePctSubUnres
+#  define MI_ParsePctSubUnres MI_DEFAULT
+# endif
+# ifndef MP_ParsePctSubUnres
+#  define MP_ParsePctSubUnres 1
+# endif
+# ifndef MI_ParsePort
+#  define MI_ParsePort MI_DEFAULT
+# endif
+# ifndef MP_ParsePort
+#  define MP_ParsePort 1
+# endif
+# ifndef MI_ParseQueryFrag
+#  define MI_ParseQueryFrag MI_DEFAULT
+# endif
+# ifndef MP_ParseQueryFrag
+#  define MP_ParseQueryFrag 1
+# endif
+# ifndef MI_ParseSegment
+#  define MI_ParseSegment MI_DEFAULT
+# endif
+# ifndef MP_ParseSegment
+#  define MP_ParseSegment 1
+# endif
+# ifndef MI_ParseSegmentNz
+#  define MI_ParseSegmentNz MI_DEFAULT
+# endif
+# ifndef MP_ParseSegmentNz
+#  define MP_ParseSegmentNz 1
+# endif
+# ifndef MI_ParseSegmentNzNcOrScheme2
+#  define MI_ParseSegmentNzNcOrScheme2 MI_DEFAULT
+# endif
+# ifndef MP_ParseSegmentNzNcOrScheme2
+#  define MP_ParseSegmentNzNcOrScheme2 1
+# endif
+# ifndef MI_ParseUriReference
+#  define MI_ParseUriReference MI_DEFAULT
+# endif
+# ifndef MP_ParseUriReference
+#  define MP_ParseUriReference 1
+# endif
+# ifndef MI_ParseUriTail
+#  define MI_ParseUriTail MI_DEFAULT
+# endif
+# ifndef MP_ParseUriTail
+#  define MP_ParseUriTail 1
+# endif
+# ifndef MI_ParseUriTailTwo
+#  define MI_ParseUriTailTwo MI_DEFAULT
+# endif
+# ifndef MP_ParseUriTailTwo
+#  define MP_ParseUriTailTwo 1
+# endif
+# ifndef MI_ParseZeroMoreSlashSegs
+#  define MI_ParseZeroMoreSlashSegs MI_DEFAULT
+# endif
+# ifndef MP_ParseZeroMoreSlashSegs
+#  define MP_ParseZeroMoreSlashSegs 1
+# endif
+/* the placeholder for empty ranges is an object of its own (UriCommon.c is not part of these translation units, so the
+ * extern pointer would otherwise be an arbitrary value that may alias the input) */
+# define P_MARKS_REQUIRES __CPROVER_requires(URI_FUNC(SafeToPointTo) != NULL && !__CPROVER_same_object(URI_FUNC(SafeToPointTo), g_in))
+#else
+# define P_MARKS_ENSURES(M, MI)
+# define P_MARKS_ENSURES_BOOL(M)
+# define P_MARKS_REQUIRES
+#endif
+/* per-function interface clause, MI_DEFAULT unless defined above */
+#define P_MI_(Name) MI_##Name
+
 /* rule functions taking the memory manager */
-#define P_RULE4_NAMED(FuncName, Id) \
+#define P_RULE4_NAMED(FuncName, Id, M, MI) \
 static const URI_CHAR *FuncName(URI_TYPE(ParserState) *state, const URI_CHAR *first, const URI_CHAR *afterLast, UriMemoryManager *memory) \
 	P_REQUIRES_COMMON __CPROVER_requires(P_MEMORY(memory)) P_LOG_REQUIRES \
 	__CPROVER_assigns(state->errorCode, state->errorPos, *(state->uri), g_pm_mallocs, g_pm_frees P_LOG_ASSIGNS) \
-	P_ENSURES_COMMON P_LOG_ENSURES(Id) ;
-#define P_RULE4(Name, Id) P_RULE4_NAMED(URI_FUNC(Name), Id)
+	P_ENSURES_COMMON P_LOG_ENSURES(Id) P_MARKS_ENSURES(M, MI) ;
+#define P_RULE4(Name, Id) P_RULE4_NAMED(URI_FUNC(Name), Id, M_##Name, MI_##Name)
 /* rule functions that cannot fail and do not take the memory manager: result never NULL */
-#define P_RULE3_NAMED(FuncName, Id) \
+#define P_RULE3_NAMED(FuncName, Id, M, MI) \
 static const URI_CHAR *FuncName(URI_TYPE(ParserState) *state, const URI_CHAR *first, const URI_CHAR *afterLast) \
 	P_REQUIRES_COMMON P_LOG_REQUIRES __CPROVER_assigns(*(state->uri) P_LOG_ASSIGNS) \
 	__CPROVER_ensures(P_POS(first, __CPROVER_return_value, afterLast)) \
-	__CPROVER_ensures(P_INV(state, __CPROVER_return_value)) P_LOG_ENSURES(Id) ;
-#define P_RULE3(Name, Id) P_RULE3_NAMED(URI_FUNC(Name), Id)
+	__CPROVER_ensures(P_INV(state, __CPROVER_return_value)) P_LOG_ENSURES(Id) P_MARKS_ENSURES(M, MI) ;
+#define P_RULE3(Name, Id) P_RULE3_NAMED(URI_FUNC(Name), Id, M_##Name, MI_##Name)
 
 #ifdef P_LOG
 /* ---- dispatch contract of the one function selected by the generated header dispatch_current.h: the interface clauses
@@ -137,8 +456,9 @@ static const URI_CHAR *P_CALLNAME(P_DISPATCH_FUNC)(URI_TYPE(ParserState) *state,
 	__CPROVER_assigns(state->errorCode, state->errorPos, *(state->uri), g_pm_mallocs, g_pm_frees, g_tr_n, \
 		__CPROVER_object_whole(g_tr_rule), __CPROVER_object_whole(g_tr_first), __CPROVER_object_whole(g_tr_ret)) \
 	P_ENSURES_COMMON \
-	__CPROVER_ensures((__CPROVER_return_value == NULL && state->errorCode == URI_ERROR_MALLOC) || (P_DISPATCH_FORMULA)) ; \
-	P_RULE4_NAMED(P_TWINNAME(P_DISPATCH_FUNC), P_DISPATCH_ID)
+	__CPROVER_ensures((__CPROVER_return_value == NULL && state->errorCode == URI_ERROR_MALLOC) || (P_DISPATCH_FORMULA)) \
+	P_MARKS_ENSURES(P_DISPATCH_M, (P_DISPATCH_MI) && (P_DISPATCH_MP)) ; \
+	P_RULE4_NAMED(P_TWINNAME(P_DISPATCH_FUNC), P_DISPATCH_ID, P_DISPATCH_M, P_DISPATCH_MI)
 # else
 #  define P_DISPATCH_DECL \
 static const URI_CHAR *P_CALLNAME(P_DISPATCH_FUNC)(URI_TYPE(ParserState) *state, const URI_CHAR *first, const URI_CHAR *afterLast) \
@@ -146,8 +466,8 @@ static const URI_CHAR *P_CALLNAME(P_DISPATCH_FUNC)(URI_TYPE(ParserState) *state,
 	__CPROVER_assigns(*(state->uri), g_tr_n, __CPROVER_object_whole(g_tr_rule), __CPROVER_object_whole(g_tr_first), __CPROVER_object_whole(g_tr_ret)) \
 	__CPROVER_ensures(P_POS(first, __CPROVER_return_value, afterLast)) \
 	__CPROVER_ensures(P_INV(state, __CPROVER_return_value)) \
-	__CPROVER_ensures(P_DISPATCH_FORMULA) ; \
-	P_RULE3_NAMED(P_TWINNAME(P_DISPATCH_FUNC), P_DISPATCH_ID)
+	__CPROVER_ensures(P_DISPATCH_FORMULA) P_MARKS_ENSURES(P_DISPATCH_M, (P_DISPATCH_MI) && (P_DISPATCH_MP)) ; \
+	P_RULE3_NAMED(P_TWINNAME(P_DISPATCH_FUNC), P_DISPATCH_ID, P_DISPATCH_M, P_DISPATCH_MI)
 # endif
 #endif
 
@@ -156,7 +476,7 @@ static const URI_CHAR *P_CALLNAME(P_DISPATCH_FUNC)(URI_TYPE(ParserState) *state,
 static const URI_CHAR *URI_FUNC(Name)(URI_TYPE(ParserState) *state, const URI_CHAR *first, const URI_CHAR *afterLast, UriMemoryManager *memory) \
 	P_REQUIRES_COMMON __CPROVER_requires(P_MEMORY(memory)) __CPROVER_requires(Extra) P_LOG_REQUIRES \
 	__CPROVER_assigns(state->errorCode, state->errorPos, *(state->uri), g_pm_mallocs, g_pm_frees P_LOG_ASSIGNS) \
-	P_ENSURES_COMMON P_LOG_ENSURES(Id) ;
+	P_ENSURES_COMMON P_LOG_ENSURES(Id) P_MARKS_ENSURES(M_##Name, MI_##Name) ;
 #ifndef P_DECL_ParseAuthority
 # define P_DECL_ParseAuthority P_RULE4(ParseAuthority, P_IDOF(ParseAuthority))
 #endif
@@ -317,15 +637,32 @@ __CPROVER_ensures((uri->pathHead == __CPROVER_old(uri->pathHead) && uri->pathTai
 	|| (uri->pathHead == NULL && uri->pathTail == NULL))
 ;
 /* the three host-end helpers and the scheme-or-segment helper: Uri fields only; marks stay within [g_in, first] */
-#define P_ONEXIT(Name) \
+#ifdef P_MARKS   /* "host instead of user info": the provisional user-info start is withdrawn (asserted on the real helpers in OnExitHost.*.H) */
+# define P_ONEXIT_UF_EXTRA __CPROVER_ensures(__CPROVER_return_value == URI_TRUE ==> state->uri->userInfo.first == NULL)
+#else
+# define P_ONEXIT_UF_EXTRA
+#endif
+#define P_ONEXIT(Name, Extra) \
 static UriBool URI_FUNC(Name)(URI_TYPE(ParserState) *state, const URI_CHAR *first, UriMemoryManager *memory) \
 	__CPROVER_requires(__CPROVER_is_fresh(state, sizeof(*state)) && __CPROVER_is_fresh(state->uri, sizeof(*(state->uri)))) \
 	__CPROVER_requires(P_MEMORY(memory)) \
 	__CPROVER_requires(__CPROVER_same_object(first, g_in) && P_ALIGNED(first) && P_OFF(first) <= g_inlen * sizeof(URI_CHAR) && P_INV(state, first)) \
 	__CPROVER_assigns(*(state->uri), g_pm_mallocs, g_pm_frees) \
 	__CPROVER_ensures(__CPROVER_return_value == URI_TRUE || __CPROVER_return_value == URI_FALSE) \
-	__CPROVER_ensures(P_INV(state, first)) ;
-P_ONEXIT(OnExitOwnHost2) P_ONEXIT(OnExitOwnHostUserInfo) P_ONEXIT(OnExitOwnPortUserInfo) P_ONEXIT(OnExitSegmentNzNcOrScheme2)
+	__CPROVER_ensures(P_INV(state, first)) P_MARKS_ENSURES_BOOL(M_##Name) Extra ;
+P_ONEXIT(OnExitOwnHost2, ) P_ONEXIT(OnExitOwnHostUserInfo, P_ONEXIT_UF_EXTRA) P_ONEXIT(OnExitOwnPortUserInfo, P_ONEXIT_UF_EXTRA)
+#ifdef P_MARKS   /* "not a scheme": the provisional scheme start is withdrawn (asserted on the real helper in OnExitSegment.*.H) */
+# define P_ONEXIT_SEG_EXTRA __CPROVER_ensures(__CPROVER_return_value == URI_TRUE ==> state->uri->scheme.first == NULL)
+#else
+# define P_ONEXIT_SEG_EXTRA
+#endif
+static UriBool URI_FUNC(OnExitSegmentNzNcOrScheme2)(URI_TYPE(ParserState) *state, const URI_CHAR *first, UriMemoryManager *memory)
+	__CPROVER_requires(__CPROVER_is_fresh(state, sizeof(*state)) && __CPROVER_is_fresh(state->uri, sizeof(*(state->uri))))
+	__CPROVER_requires(P_MEMORY(memory))
+	__CPROVER_requires(__CPROVER_same_object(first, g_in) && P_ALIGNED(first) && P_OFF(first) <= g_inlen * sizeof(URI_CHAR) && P_INV(state, first))
+	__CPROVER_assigns(*(state->uri), g_pm_mallocs, g_pm_frees)
+	__CPROVER_ensures(__CPROVER_return_value == URI_TRUE || __CPROVER_return_value == URI_FALSE)
+	__CPROVER_ensures(P_INV(state, first)) P_MARKS_ENSURES_BOOL(M_OnExitSegmentNzNcOrScheme2) P_ONEXIT_SEG_EXTRA ;
 static void URI_FUNC(OnExitPartHelperTwo)(URI_TYPE(ParserState) *state)
 __CPROVER_requires(__CPROVER_is_fresh(state, sizeof(*state)) && __CPROVER_is_fresh(state->uri, sizeof(*(state->uri))))
 __CPROVER_assigns(state->uri->absolutePath)
